@@ -312,9 +312,9 @@ int begin_order[C20_MAXT];
 int begin_counter;
 bool saved;
 
-enum { PT_CHUNK_CROSSED = 0, PT_EMPTY_LOG, PT_ONE_EVENT, PT_EXACT_CHUNK, PT_MULTI_THREAD, PT_NESTED_GE2, PT_CPU_COUNTER, PT_NO_PROCESS_NAME, PT_ID_RECYCLED, PT_CXX_LOCALE };
+enum { PT_CHUNK_CROSSED = 0, PT_EMPTY_LOG, PT_ONE_EVENT, PT_EXACT_CHUNK, PT_MULTI_THREAD, PT_NESTED_GE2, PT_CPU_COUNTER, PT_NO_PROCESS_NAME, PT_ID_RECYCLED, PT_CXX_LOCALE, PT_OPEN_AT_SAVE, PT_SAME_NAMES };
 const char *tprobe_names[] = {"thread_crossed_chunk_boundary", "log_with_no_event", "thread_with_exactly_one_event", "thread_with_exactly_one_chunk",
-                              "two_or_more_recording_threads", "nesting_depth_ge_2", "auxiliary_cpu_counter_in_file", "no_process_name", "thread_id_reused_by_a_later_recording_thread", "global_cxx_locale_with_decimal_comma_and_grouping", nullptr};
+                              "two_or_more_recording_threads", "nesting_depth_ge_2", "auxiliary_cpu_counter_in_file", "no_process_name", "thread_id_reused_by_a_later_recording_thread", "global_cxx_locale_with_decimal_comma_and_grouping", "begin_event_still_open_when_the_log_is_saved", "several_recording_threads_with_the_same_name", nullptr};
 const char *tfault_names[] = {"(unused)", "clock_jump", nullptr};
 
 void treset()
@@ -377,6 +377,11 @@ void tplan_common(int tier, int global)
   // a single unnamed thread is identifiable too (it is the only one)
   if (tplan.nthreads == 1 && sim_plan(3) == 0)
     tplan.named[0] = 0;
+  tplan.leave_open = sim_plan(8) == 7;
+  tplan.same_names = tplan.nthreads >= 2 && sim_plan(8) == 6;
+  if (tplan.same_names)
+    for (int t = 0; t < tplan.nthreads; t++)
+      tplan.named[t] = 1;  // drawn last: earlier draws keep their meaning
   sim_set_step_cap(6000000);
 }
 void tplan_private(int tier) { tplan_common(tier, 0); }
@@ -476,6 +481,7 @@ void tcheck()
       groups.push_back({thread_key[s2], std::vector<int>(1, s2)});
   }
   int recording = (int)groups.size();
+  std::vector<std::vector<std::string>> pool_exp;
   for (auto &g2 : groups) {
     if (g2.second.size() > 1)
       sim_probe(PT_ID_RECYCLED);
@@ -496,6 +502,8 @@ void tcheck()
       }
       if (maxdepth >= 2)
         sim_probe(PT_NESTED_GE2);
+      if (depth > 0)
+        sim_probe(PT_OPEN_AT_SAVE);
       size_t n = recorded[s2]->size();
       if (n == 1)
         sim_probe(PT_ONE_EVENT);
@@ -505,6 +513,10 @@ void tcheck()
         sim_probe(PT_CHUNK_CROSSED);
       if (tplan.named[s2])
         snprintf(want, sizeof want, "thr-%d", s2);
+    }
+    if (tplan.same_names) {
+      pool_exp.push_back(exp);
+      continue;
     }
     // find the file's tid for this group
     long ftid = -1;
@@ -526,6 +538,25 @@ void tcheck()
         sim_fail("C20:trace:event-differs", "thread %s event %zu: recorded %s, log has %s", want, i, exp[i].c_str(), got[i].c_str());
         return;
       }
+  }
+  if (tplan.same_names) {
+    // all threads carry the same name: the log must hold one entry per recording thread, and the entries' event sequences must be
+    // the recorded sequences (in any order of threads)
+    std::vector<std::vector<std::string>> pool_got;
+    for (auto &kv : tname)
+      if (kv.second == "worker")
+        pool_got.push_back(evs[kv.first]);
+    if (pool_got.size() != pool_exp.size()) {
+      sim_fail("C20:trace:thread-missing", "%zu recording threads all named \"worker\", the log has %zu entries of that name", pool_exp.size(), pool_got.size());
+      return;
+    }
+    std::sort(pool_exp.begin(), pool_exp.end());
+    std::sort(pool_got.begin(), pool_got.end());
+    if (pool_exp != pool_got) {
+      sim_fail("C20:trace:event-differs", "%zu recording threads all named \"worker\": the per-thread event sequences in the log are not the recorded ones", pool_exp.size());
+      return;
+    }
+    sim_probe(PT_SAME_NAMES);
   }
   if ((int)tname.size() != recording) {
     sim_fail("C20:trace:thread-count-differs", "%d thread ids recorded, the log names %zu", recording, tname.size());
